@@ -2,17 +2,45 @@ package main
 
 // Normalisation pre-pass: makes the fact queries insensitive to a family of harmless refactorings.
 //   (a) named local closures (`f := func(){…}` assigned once) are substituted at `go f()`, `defer f()`
-//       and where `f` is passed as an argument;
+//       and where `f` is passed as an argument (the shared literal is reported once by all / allShallow);
 //   (b) calls of same-package helper functions / methods that are not themselves anchored are followed, as
 //       a block, by a copy of the helper's body with parameters (and receiver) replaced by the arguments;
 //   (c) single-assignment locals bound to a pure index / slice / selector / binary expression are
-//       replaced by that expression (copy propagation).
-// The pass only adds or substitutes syntax for the extractor's eyes; it never touches the repository.
+//       replaced by that expression (copy propagation);
+//   (d) names: parameters / named results / receivers of the anchored functions are renamed BY POSITION to
+//       the names the queries use (canonParams), the fields of utils.channelWithContext BY TYPE
+//       (canonFields), and the closure proxy's argument list BY ROLE (canonProxyArgs);
+//   (e) shapes: local guard closures `failed(err)` (inlineGuards), immediately-invoked literals used as a
+//       critical section (flattenIIFE), `for { if C { break }; … }` (loopConds) and
+//       `len(strings.TrimSpace(E)) > 0` (trimLen) are rewritten to the plain form.
+// Every rewrite is behaviour-preserving on the analysed program, so a query that sees the rewritten tree
+// sees the same behaviour. The pass only adds or substitutes syntax for the extractor's eyes; it never
+// touches the repository.
+//
+// Names the queries still match LITERALLY (a harmless rename of one of these flips facts to false, which is
+// the safe direction):
+//   - locals of LinkMessage: `setErr`, `fatalErr`, `fatalErrLock`, `remoteID`, `wg`, `err`; of its request
+//     handler: `req` (a local of the request loop), `res`, `function`, `errorType`, and the payload names
+//     `b` / `v` that stPayloadOpaque looks for;
+//   - locals of LinkStream: `decodeDone`, `decodeErr`, `requests`, `responses`, `msg`;
+//   - locals of makeRPC's literal: `b`, `err`, `errorType`;
+//   - locals of the registry walk: `functionField`, `functionType`, `prefix`, `contextType`;
+//   - locals of convertValue (`dstSlice`, `elem`, `i`), of CallClosure (`closure`, `ok`), of the closure proxy
+//     (`rcpRv`), the parameter `args` / local `functionType` of createClosure's wrapper;
+//   - parameters of the anchored functions that are not in canonParamNames (Publish / Receive / Free / Close,
+//     CallClosure, registerClosure's `fn`, findMethodByFunctionCallPathRecursively's `root`);
+//   - all struct FIELD names other than channelWithContext's (`lock`, `channels`, `closed`, `closures`,
+//     `closuresLock`, `remotes`, `remotesLock`, `hooks`, `local`, `wrappee`, `wrapper`, `Call`, `Value`, `Err`, …),
+//     package-level names (`errorType`, `contextType`, `ErrClosed`, …) and function / method names.
+// Already found by role in the queries themselves (not literal): callID, cmd, the res channel, closureID /
+// freeClosure in makeRPC, resVar / errVar in the response loop, the path parameter and `parts` of the lookup.
 
 import (
+	"fmt"
 	"go/ast"
 	"go/parser"
 	"go/token"
+	"os"
 	"strings"
 )
 
@@ -24,7 +52,10 @@ var anchored = map[string]bool{
 }
 
 func (s *src) normalize() {
-	helpers := map[string]*ast.FuncDecl{}
+	s.expanded = map[ast.Stmt]bool{}
+	s.inlinedCalls = map[*ast.CallExpr]bool{}
+	s.helpers = map[string]*ast.FuncDecl{}
+	helpers := s.helpers
 	for _, f := range s.files {
 		for _, d := range f.Decls {
 			if fd, ok := d.(*ast.FuncDecl); ok && fd.Body != nil && !anchored[fd.Name.Name] && !ast.IsExported(fd.Name.Name) {
@@ -32,6 +63,17 @@ func (s *src) normalize() {
 			}
 		}
 	}
+	// Names first: these steps follow the parser's identifier resolution (ast.Ident.Obj), which the copies
+	// made by the later steps (print + re-parse) no longer carry.
+	safely(s.canonFields)
+	for _, f := range s.files {
+		for _, d := range f.Decls {
+			if fd, ok := d.(*ast.FuncDecl); ok && fd.Body != nil && anchored[fd.Name.Name] {
+				safely(func() { s.canonParams(fd) })
+			}
+		}
+	}
+	safely(s.canonProxyArgs)
 	for _, f := range s.files {
 		for _, d := range f.Decls {
 			fd, ok := d.(*ast.FuncDecl)
@@ -39,12 +81,27 @@ func (s *src) normalize() {
 				continue
 			}
 			for pass := 0; pass < 2; pass++ {
+				safely(func() { s.flattenIIFE(fd.Body) })
+				safely(func() { s.loopConds(fd.Body) })
+				safely(func() { s.trimLen(fd.Body) })
+				safely(func() { s.inlineGuards(fd.Body) })
 				s.inlineClosures(fd.Body)
 				s.inlineHelpers(fd.Body, helpers)
 				s.copyPropagate(fd.Body)
 			}
 		}
 	}
+}
+
+// safely runs one normalisation step; a step that trips over syntax it did not expect is abandoned (the
+// tree keeps whatever it had rewritten so far) instead of taking the extractor down.
+func safely(step func()) {
+	defer func() {
+		if e := recover(); e != nil && os.Getenv("EXTRACT_DEBUG") != "" {
+			fmt.Fprintln(os.Stderr, "extract: normalisation step abandoned:", e)
+		}
+	}()
+	step()
 }
 
 // cloneExpr re-parses the printed form: a fresh copy with positions inside the original node's span is not
@@ -137,6 +194,9 @@ func (s *src) inlineClosures(body *ast.BlockStmt) {
 		}
 		return true
 	})
+	// The definition stays where it is: the literal is now referenced twice (definition and use), and only
+	// the definition's position contains it, which is what the position-based queries (`enclosing`,
+	// `heldFor`) go by. The collectors `all` / `allShallow` return a node reached twice only once.
 }
 
 // inlineHelpers appends, after every statement that calls a helper, a block holding the helper's body with
@@ -146,6 +206,10 @@ func (s *src) inlineHelpers(body *ast.BlockStmt, helpers map[string]*ast.FuncDec
 	expand := func(st ast.Stmt) []ast.Stmt {
 		var extra []ast.Stmt
 		var calls []*ast.CallExpr
+		if s.expanded[st] { // second pass: the copy is already there
+			return nil
+		}
+		s.expanded[st] = true
 		switch v := st.(type) {
 		case *ast.ExprStmt:
 			if c, ok := v.X.(*ast.CallExpr); ok {
@@ -202,6 +266,7 @@ func (s *src) inlineHelpers(body *ast.BlockStmt, helpers map[string]*ast.FuncDec
 			}
 			renameIdents(blk, ren)
 			extra = append(extra, blk)
+			s.inlinedCalls[c] = true
 		}
 		return extra
 	}
@@ -388,4 +453,715 @@ func pureOperand(e ast.Expr) bool {
 		return pureOperand(v.X)
 	}
 	return false
+}
+
+// ---------------------------------------------------------------------------------------------------
+// Shared helpers of the steps below
+
+// walkVarIdents calls fn for every identifier under root that stands in a variable position: not the
+// selected name of `x.f`, not a struct-literal key (the parser resolves those against the local scope, so
+// `T{ctx: ctx}` would otherwise look like two uses of the variable), not a struct field / interface method
+// declaration, not a label.
+func walkVarIdents(root ast.Node, fn func(*ast.Ident)) {
+	if root == nil || isNilNode(root) {
+		return
+	}
+	ast.Inspect(root, func(n ast.Node) bool {
+		switch v := n.(type) {
+		case *ast.SelectorExpr:
+			walkVarIdents(v.X, fn)
+			return false
+		case *ast.CompositeLit:
+			if v.Type != nil {
+				walkVarIdents(v.Type, fn)
+			}
+			_, isMap := v.Type.(*ast.MapType)
+			_, isArr := v.Type.(*ast.ArrayType)
+			for _, e := range v.Elts {
+				if kv, ok := e.(*ast.KeyValueExpr); ok {
+					if _, isID := kv.Key.(*ast.Ident); !isID || isMap || isArr {
+						walkVarIdents(kv.Key, fn)
+					}
+					walkVarIdents(kv.Value, fn)
+				} else {
+					walkVarIdents(e, fn)
+				}
+			}
+			return false
+		case *ast.StructType:
+			if v.Fields != nil {
+				for _, f := range v.Fields.List {
+					walkVarIdents(f.Type, fn)
+				}
+			}
+			return false
+		case *ast.InterfaceType:
+			return false
+		case *ast.BranchStmt:
+			return false
+		case *ast.LabeledStmt:
+			walkVarIdents(v.Stmt, fn)
+			return false
+		case *ast.Ident:
+			fn(v)
+		}
+		return true
+	})
+}
+
+// rewriteStmtLists applies f to every statement list under root (blocks, case and comm clauses), outermost
+// first; statements f puts into a list are visited in turn.
+func rewriteStmtLists(root ast.Node, f func([]ast.Stmt) []ast.Stmt) {
+	if root == nil || isNilNode(root) {
+		return
+	}
+	ast.Inspect(root, func(n ast.Node) bool {
+		switch v := n.(type) {
+		case *ast.BlockStmt:
+			v.List = f(v.List)
+		case *ast.CaseClause:
+			v.Body = f(v.Body)
+		case *ast.CommClause:
+			v.Body = f(v.Body)
+		}
+		return true
+	})
+}
+
+// renameDecl renames the variable declared by decl, and every use of it under scope, to `to`. Uses are
+// found through the parser's resolution (Ident.Obj), so an inner declaration of the same name is left
+// alone; without an Obj (never the case for what go/parser hands us) unresolved identifiers of that name
+// are taken. Nothing happens — and false is returned — when `to` already names something else in scope.
+func renameDecl(scope ast.Node, decl *ast.Ident, to string) bool {
+	if decl == nil || scope == nil || isNilNode(scope) || decl.Name == to || decl.Name == "_" || to == "" {
+		return false
+	}
+	from, obj := decl.Name, decl.Obj
+	var uses []*ast.Ident
+	clash := false
+	walkVarIdents(scope, func(id *ast.Ident) {
+		switch {
+		case id == decl, obj != nil && id.Obj == obj, obj == nil && id.Obj == nil && id.Name == from:
+			uses = append(uses, id)
+		case id.Name == to:
+			clash = true
+		}
+	})
+	if clash {
+		return false
+	}
+	for _, id := range uses {
+		id.Name = to
+	}
+	decl.Name = to
+	return true
+}
+
+func fieldIdents(fl *ast.FieldList) []*ast.Ident {
+	var out []*ast.Ident
+	if fl == nil {
+		return out
+	}
+	for _, f := range fl.List {
+		if f == nil {
+			continue
+		}
+		if len(f.Names) == 0 {
+			out = append(out, nil) // unnamed: keeps the positions of the others right
+		}
+		out = append(out, f.Names...)
+	}
+	return out
+}
+
+func unparen(e ast.Expr) ast.Expr {
+	for {
+		p, ok := e.(*ast.ParenExpr)
+		if !ok {
+			return e
+		}
+		e = p.X
+	}
+}
+
+// ---------------------------------------------------------------------------------------------------
+// (d) names
+
+// Parameter / result names the queries use, by position (the names of /repo's current source), keyed by
+// "<receiver type>.<method>" or "<function>". A function whose parameter COUNT differs is left alone.
+var canonParamNames = map[string][]string{
+	"Registry.makeRPC":                            {"linkCtx", "name", "functionType", "setErr", "responseResolver", "writeRequest", "marshal", "unmarshal"},
+	"Registry.implementRemoteStructRecursively":   {"ctx", "namePrefix", "remote", "setErr", "responseResolver", "writeRequest", "marshal", "unmarshal"},
+	"Registry.findLocalFunctionToCallRecursively": {"ctx", "req", "setErr", "responseResolver", "writeRequest", "marshal", "unmarshal", "remoteID"},
+	"Registry.LinkMessage":                        {"ctx", "writeRequest", "writeResponse", "readRequest", "readResponse", "marshal", "unmarshal", "hooks"},
+	"Registry.LinkStream":                         {"ctx", "encode", "decode", "marshal", "unmarshal", "hooks"},
+	"convertValue":                                {"srcVal", "dstType"},
+}
+var canonResultNames = map[string][]string{
+	"Registry.findLocalFunctionToCallRecursively": {"function", "args", "err"},
+}
+
+// Receiver names the queries use (`r.remotesLock`, `m.closuresLock`, `b.lock` in the access table).
+var canonRecvNames = map[string]string{"Registry": "r", "closureManager": "m", "Broadcaster": "b"}
+
+// canonParams renames, in one anchored function: its receiver (by receiver type), a *closureManager
+// parameter (registerClosure's `m`), the parameters and named results of the functions listed above
+// (by position), and the parameter / named result of every function literal handed to reflect.MakeFunc
+// (`args`, `results`).
+func (s *src) canonParams(fd *ast.FuncDecl) {
+	if fd == nil || fd.Body == nil || fd.Type == nil {
+		return
+	}
+	recv := ""
+	if fd.Recv != nil && len(fd.Recv.List) == 1 && fd.Recv.List[0] != nil {
+		recv = recvBase(fd.Recv.List[0].Type)
+		if to, ok := canonRecvNames[recv]; ok && len(fd.Recv.List[0].Names) == 1 {
+			renameDecl(fd, fd.Recv.List[0].Names[0], to)
+		}
+	}
+	if fd.Type.Params != nil {
+		for _, p := range fd.Type.Params.List {
+			if p != nil && recvBase(p.Type) == "closureManager" && len(p.Names) == 1 {
+				renameDecl(fd, p.Names[0], canonRecvNames["closureManager"])
+			}
+		}
+	}
+	key := fd.Name.Name
+	if fd.Recv != nil {
+		key = recv + "." + key
+	}
+	byPos := func(fl *ast.FieldList, want []string) {
+		ids := fieldIdents(fl)
+		if want == nil || len(ids) != len(want) {
+			return
+		}
+		for i, id := range ids {
+			renameDecl(fd, id, want[i])
+		}
+	}
+	byPos(fd.Type.Params, canonParamNames[key])
+	byPos(fd.Type.Results, canonResultNames[key])
+	for _, c := range s.callsTo(fd.Body, "MakeFunc") {
+		if len(c.Args) != 2 {
+			continue
+		}
+		fl, ok := c.Args[1].(*ast.FuncLit)
+		if !ok || fl.Type == nil {
+			continue
+		}
+		if ids := fieldIdents(fl.Type.Params); len(ids) == 1 {
+			renameDecl(fl, ids[0], "args")
+		}
+		if ids := fieldIdents(fl.Type.Results); len(ids) == 1 {
+			renameDecl(fl, ids[0], "results")
+		}
+	}
+}
+
+// canonProxyArgs names the closure proxy's argument list `rpcArgs` by its role: in
+// findLocalFunctionToCallRecursively, the variable X that is handed over as the last element of
+// `utils.Call(rpc, []reflect.Value{ctx, closureID, reflect.ValueOf(X)})` and is grown by `X = append(X, …)`.
+// Where X is declared is NOT part of the role: pxArgsFreshPerInvocation still has to find the declaration
+// (with a fresh `[]interface{}{}`) inside the per-invocation literal.
+func (s *src) canonProxyArgs() {
+	fd := s.funcDecl("Registry", "findLocalFunctionToCallRecursively")
+	if fd == nil || fd.Body == nil {
+		return
+	}
+	for _, c := range all(fd.Body, func(c *ast.CallExpr) bool { return s.str(c.Fun) == "utils.Call" && len(c.Args) == 2 }) {
+		cl, ok := c.Args[1].(*ast.CompositeLit)
+		if !ok || len(cl.Elts) != 3 {
+			continue
+		}
+		vc, ok := cl.Elts[2].(*ast.CallExpr)
+		if !ok || s.str(vc.Fun) != "reflect.ValueOf" || len(vc.Args) != 1 {
+			continue
+		}
+		x, ok := vc.Args[0].(*ast.Ident)
+		if !ok || x.Obj == nil {
+			continue
+		}
+		grown := false
+		var decl *ast.Ident
+		walkVarIdents(fd, func(id *ast.Ident) {
+			if id.Obj == x.Obj && id.Pos() == x.Obj.Pos() {
+				decl = id
+			}
+		})
+		for _, a := range all[*ast.AssignStmt](fd.Body, nil) {
+			if a.Tok != token.ASSIGN || len(a.Lhs) != 1 || len(a.Rhs) != 1 {
+				continue
+			}
+			l, ok := a.Lhs[0].(*ast.Ident)
+			ap, ok2 := a.Rhs[0].(*ast.CallExpr)
+			if !ok || !ok2 || l.Obj != x.Obj || s.str(ap.Fun) != "append" || len(ap.Args) < 2 {
+				continue
+			}
+			if f, ok := ap.Args[0].(*ast.Ident); ok && f.Obj == x.Obj {
+				grown = true
+			}
+		}
+		if grown && decl != nil {
+			renameDecl(fd, decl, "rpcArgs")
+		}
+	}
+}
+
+// canonFields renames the fields of utils.channelWithContext by their TYPE to the names the broadcaster
+// queries use: context.Context → ctx, a cancel function → cancel, `chan struct{}` → done, any other channel
+// → channel. Without type information the uses cannot be told from other selectors, so inside
+// broadcaster.go (only) every selector `x.<old>` and every key of a `channelWithContext{…}` literal is
+// renamed. Nothing is renamed when the types do not identify the fields uniquely, or when an old name is
+// also a field of Broadcaster (whose selectors would be caught by mistake).
+func (s *src) canonFields() {
+	const typ = "channelWithContext"
+	file := s.files["broadcaster.go"]
+	if file == nil {
+		return
+	}
+	var st *ast.StructType
+	for _, d := range file.Decls {
+		if gd, ok := d.(*ast.GenDecl); ok {
+			for _, sp := range gd.Specs {
+				if ts, ok := sp.(*ast.TypeSpec); ok && ts.Name != nil && ts.Name.Name == typ {
+					st, _ = ts.Type.(*ast.StructType)
+				}
+			}
+		}
+	}
+	if st == nil || st.Fields == nil {
+		return
+	}
+	role := func(t ast.Expr) string {
+		switch v := t.(type) {
+		case *ast.FuncType:
+			return "cancel"
+		case *ast.ChanType:
+			if s.str(v.Value) == "struct{}" {
+				return "done"
+			}
+			return "channel"
+		}
+		switch s.str(t) {
+		case "context.Context":
+			return "ctx"
+		case "context.CancelCauseFunc", "context.CancelFunc":
+			return "cancel"
+		}
+		return ""
+	}
+	byRole := map[string][]*ast.Ident{}
+	var fields []*ast.Ident
+	for _, f := range st.Fields.List {
+		if f == nil {
+			continue
+		}
+		for _, n := range f.Names {
+			fields = append(fields, n)
+			if r := role(f.Type); r != "" {
+				byRole[r] = append(byRole[r], n)
+			}
+		}
+	}
+	ren := map[string]string{}
+	for r, ids := range byRole {
+		if len(ids) == 1 && ids[0].Name != r {
+			ren[ids[0].Name] = r
+		}
+	}
+	if len(ren) == 0 {
+		return
+	}
+	// the renamed struct must still have distinct field names …
+	seen := map[string]bool{}
+	for _, n := range fields {
+		nm := n.Name
+		if to, ok := ren[nm]; ok {
+			nm = to
+		}
+		if seen[nm] {
+			return
+		}
+		seen[nm] = true
+	}
+	// … and no old name may also be a field of Broadcaster
+	if bs := s.structDecl("Broadcaster"); bs != nil && bs.Fields != nil {
+		for _, f := range bs.Fields.List {
+			for _, n := range f.Names {
+				if _, ok := ren[n.Name]; ok {
+					return
+				}
+			}
+		}
+	}
+	for _, n := range fields {
+		if to, ok := ren[n.Name]; ok {
+			n.Name = to
+		}
+	}
+	ast.Inspect(file, func(n ast.Node) bool {
+		switch v := n.(type) {
+		case *ast.SelectorExpr:
+			if v.Sel != nil {
+				if to, ok := ren[v.Sel.Name]; ok {
+					v.Sel.Name = to
+				}
+			}
+		case *ast.CompositeLit:
+			if v.Type != nil && strings.HasPrefix(s.str(v.Type), typ) {
+				for _, e := range v.Elts {
+					if kv, ok := e.(*ast.KeyValueExpr); ok {
+						if id, ok := kv.Key.(*ast.Ident); ok {
+							if to, ok := ren[id.Name]; ok {
+								id.Name = to
+							}
+						}
+					}
+				}
+			}
+		}
+		return true
+	})
+}
+
+// ---------------------------------------------------------------------------------------------------
+// (e) shapes
+
+// flattenIIFE replaces a statement `func() { x.Lock(); defer x.Unlock(); A; B }()` — an immediately invoked
+// literal without parameters, results or `return`, i.e. a scoped critical section — by its body in place:
+// `x.Lock(); A; B; x.Unlock()`, deferred calls last and in reverse order. Only when that is the same
+// program: the deferred calls are top-level statements of the literal and take no computed arguments, and
+// nothing in the literal recovers. A body that declares names is kept in a block of its own.
+func (s *src) flattenIIFE(body *ast.BlockStmt) {
+	flat := func(st ast.Stmt) ([]ast.Stmt, bool) {
+		es, ok := st.(*ast.ExprStmt)
+		if !ok {
+			return nil, false
+		}
+		c, ok := es.X.(*ast.CallExpr)
+		if !ok || len(c.Args) != 0 {
+			return nil, false
+		}
+		fl, ok := unparen(c.Fun).(*ast.FuncLit)
+		if !ok || fl.Body == nil || fl.Type == nil {
+			return nil, false
+		}
+		if (fl.Type.Params != nil && len(fl.Type.Params.List) > 0) || (fl.Type.Results != nil && len(fl.Type.Results.List) > 0) {
+			return nil, false
+		}
+		if len(allShallow[*ast.ReturnStmt](fl, nil)) > 0 || len(s.callsTo(fl, "recover")) > 0 {
+			return nil, false
+		}
+		var plain, deferred []ast.Stmt
+		declares := false
+		for _, b := range fl.Body.List {
+			switch v := b.(type) {
+			case *ast.DeferStmt:
+				if v.Call == nil {
+					return nil, false
+				}
+				for _, a := range v.Call.Args { // arguments are evaluated at the defer, not at the end
+					switch unparen(a).(type) {
+					case *ast.Ident, *ast.BasicLit:
+					default:
+						return nil, false
+					}
+				}
+				call := &ast.ExprStmt{X: v.Call}
+				shift(call, fl.Body.Rbrace) // it now runs where the literal ended
+				deferred = append([]ast.Stmt{call}, deferred...)
+			case *ast.DeclStmt, *ast.LabeledStmt:
+				declares = true
+				plain = append(plain, b)
+			case *ast.AssignStmt:
+				declares = declares || v.Tok == token.DEFINE
+				plain = append(plain, b)
+			default:
+				plain = append(plain, b)
+			}
+		}
+		if len(allShallow[*ast.DeferStmt](fl, nil)) != len(deferred) { // a defer below the top level
+			return nil, false
+		}
+		out := append(plain, deferred...)
+		if declares {
+			return []ast.Stmt{&ast.BlockStmt{Lbrace: fl.Body.Lbrace, List: out, Rbrace: fl.Body.Rbrace}}, true
+		}
+		return out, true
+	}
+	rewriteStmtLists(body, func(list []ast.Stmt) []ast.Stmt {
+		var out []ast.Stmt
+		for _, st := range list {
+			if repl, ok := flat(st); ok {
+				out = append(out, repl...)
+			} else {
+				out = append(out, st)
+			}
+		}
+		return out
+	})
+}
+
+// negate returns the simplified negation of a condition: `a != b` ⇄ `a == b`, `!x` → `x`, else `!(c)`.
+func negate(c ast.Expr) ast.Expr {
+	c = unparen(c)
+	switch v := c.(type) {
+	case *ast.BinaryExpr:
+		switch v.Op {
+		case token.EQL:
+			v.Op = token.NEQ
+			return v
+		case token.NEQ:
+			v.Op = token.EQL
+			return v
+		}
+		return &ast.UnaryExpr{OpPos: c.Pos(), Op: token.NOT, X: &ast.ParenExpr{Lparen: c.Pos(), X: c, Rparen: c.End()}}
+	case *ast.UnaryExpr:
+		if v.Op == token.NOT {
+			return unparen(v.X)
+		}
+	}
+	return &ast.UnaryExpr{OpPos: c.Pos(), Op: token.NOT, X: c}
+}
+
+// loopConds turns `for { if C { break }; BODY }` into `for !C { BODY }` (a `continue` in BODY re-tests C
+// either way).
+func (s *src) loopConds(body *ast.BlockStmt) {
+	ast.Inspect(body, func(n ast.Node) bool {
+		l, ok := n.(*ast.ForStmt)
+		if !ok || l.Init != nil || l.Cond != nil || l.Post != nil || l.Body == nil || len(l.Body.List) == 0 {
+			return true
+		}
+		i, ok := l.Body.List[0].(*ast.IfStmt)
+		if !ok || i.Init != nil || i.Else != nil || i.Cond == nil || i.Body == nil || len(i.Body.List) != 1 {
+			return true
+		}
+		br, ok := i.Body.List[0].(*ast.BranchStmt)
+		if !ok || br.Tok != token.BREAK || br.Label != nil {
+			return true
+		}
+		l.Cond = negate(i.Cond)
+		l.Body.List = l.Body.List[1:]
+		return true
+	})
+}
+
+// trimLen rewrites the emptiness test of a trimmed string to the comparison with "":
+// `len(strings.TrimSpace(E)) > 0` (or `!= 0`, `>= 1`) → `strings.TrimSpace(E) != ""`, `== 0` (or `< 1`) → `== ""`.
+// Only for strings.TrimSpace, whose result is known to be a string without type information.
+func (s *src) trimLen(body *ast.BlockStmt) {
+	ast.Inspect(body, func(n ast.Node) bool {
+		b, ok := n.(*ast.BinaryExpr)
+		if !ok {
+			return true
+		}
+		lc, ok := unparen(b.X).(*ast.CallExpr)
+		if !ok || len(lc.Args) != 1 {
+			return true
+		}
+		if id, ok := lc.Fun.(*ast.Ident); !ok || id.Name != "len" {
+			return true
+		}
+		tc, ok := unparen(lc.Args[0]).(*ast.CallExpr)
+		if !ok || s.str(tc.Fun) != "strings.TrimSpace" {
+			return true
+		}
+		lit, ok := unparen(b.Y).(*ast.BasicLit)
+		if !ok || lit.Kind != token.INT {
+			return true
+		}
+		var op token.Token
+		switch {
+		case lit.Value == "0" && (b.Op == token.GTR || b.Op == token.NEQ), lit.Value == "1" && b.Op == token.GEQ:
+			op = token.NEQ
+		case lit.Value == "0" && b.Op == token.EQL, lit.Value == "1" && b.Op == token.LSS:
+			op = token.EQL
+		default:
+			return true
+		}
+		b.X, b.Op, b.Y = tc, op, &ast.BasicLit{ValuePos: lit.Pos(), Kind: token.STRING, Value: `""`}
+		return true
+	})
+}
+
+// inlineGuards removes local guard helpers of the shape
+//
+//	failed := func(p T) bool { if COND { S…; return true }; return false }
+//
+// (one parameter, a bool result, exactly these two statements and returns, assigned once) by rewriting
+// every `if failed(ARG) { BODY }` to `if COND { S…; BODY }` with p replaced by ARG — or, when ARG is not a
+// plain name, to `if p := ARG; COND { S…; BODY }` provided the `if` has no init statement and BODY / else do
+// not mention p. The definition is dropped once nothing refers to it any more.
+func (s *src) inlineGuards(body *ast.BlockStmt) {
+	type guard struct {
+		def   *ast.AssignStmt
+		param string
+		cond  ast.Expr
+		stmts *ast.BlockStmt // the guard's if-body without its final `return true`
+	}
+	guards := map[string]*guard{}
+	count := map[string]int{}
+	isBoolRet := func(st ast.Stmt, val string) bool {
+		r, ok := st.(*ast.ReturnStmt)
+		if !ok || len(r.Results) != 1 {
+			return false
+		}
+		id, ok := r.Results[0].(*ast.Ident)
+		return ok && id.Name == val
+	}
+	ast.Inspect(body, func(n ast.Node) bool {
+		a, ok := n.(*ast.AssignStmt)
+		if !ok || len(a.Lhs) != 1 || len(a.Rhs) != 1 {
+			return true
+		}
+		id, ok := a.Lhs[0].(*ast.Ident)
+		if !ok {
+			return true
+		}
+		count[id.Name]++
+		fl, ok := a.Rhs[0].(*ast.FuncLit)
+		if !ok || a.Tok != token.DEFINE || fl.Type == nil || fl.Body == nil || len(fl.Body.List) != 2 {
+			return true
+		}
+		ps, rs := fieldIdents(fl.Type.Params), fl.Type.Results
+		if len(ps) != 1 || ps[0] == nil || rs == nil || len(rs.List) != 1 || len(rs.List[0].Names) != 0 || s.str(rs.List[0].Type) != "bool" {
+			return true
+		}
+		if _, variadic := fl.Type.Params.List[0].Type.(*ast.Ellipsis); variadic {
+			return true
+		}
+		i, ok := fl.Body.List[0].(*ast.IfStmt)
+		if !ok || i.Init != nil || i.Else != nil || i.Body == nil || len(i.Body.List) == 0 {
+			return true
+		}
+		last := len(i.Body.List) - 1
+		if !isBoolRet(i.Body.List[last], "true") || !isBoolRet(fl.Body.List[1], "false") || len(all[*ast.ReturnStmt](fl.Body, nil)) != 2 {
+			return true
+		}
+		guards[id.Name] = &guard{a, ps[0].Name, i.Cond, &ast.BlockStmt{Lbrace: i.Body.Lbrace, List: i.Body.List[:last], Rbrace: i.Body.Rbrace}}
+		return true
+	})
+	for name := range guards {
+		if count[name] != 1 {
+			delete(guards, name)
+		}
+	}
+	if len(guards) == 0 {
+		return
+	}
+	mentions := func(root ast.Node, name string) bool {
+		found := false
+		walkVarIdents(root, func(id *ast.Ident) { found = found || id.Name == name })
+		return found
+	}
+	ast.Inspect(body, func(n ast.Node) bool {
+		i, ok := n.(*ast.IfStmt)
+		if !ok || i.Body == nil {
+			return true
+		}
+		c, ok := unparen(i.Cond).(*ast.CallExpr)
+		if !ok || len(c.Args) != 1 || c.Ellipsis.IsValid() {
+			return true
+		}
+		id, ok := c.Fun.(*ast.Ident)
+		if !ok {
+			return true
+		}
+		g := guards[id.Name]
+		if g == nil || contains(g.def, i) {
+			return true
+		}
+		arg := unparen(c.Args[0])
+		var init ast.Stmt
+		ren := map[string]string{}
+		if a, ok := arg.(*ast.Ident); ok {
+			if a.Name != g.param {
+				ren[g.param] = a.Name
+			}
+		} else {
+			if i.Init != nil || mentions(i.Body, g.param) || (i.Else != nil && mentions(i.Else, g.param)) {
+				return true
+			}
+			init = &ast.AssignStmt{Lhs: []ast.Expr{&ast.Ident{NamePos: c.Pos(), Name: g.param}}, TokPos: c.Pos(), Tok: token.DEFINE, Rhs: []ast.Expr{arg}}
+		}
+		cond, err := parser.ParseExpr(s.strRaw(g.cond))
+		stmts := s.cloneBlock(g.stmts, i.Body.Lbrace)
+		if err != nil || stmts == nil {
+			return true
+		}
+		shift(cond, c.Pos())
+		renameIdents(cond, ren)
+		renameIdents(stmts, ren)
+		if init != nil {
+			i.Init = init
+		}
+		i.Cond = cond
+		i.Body.List = append(stmts.List, i.Body.List...)
+		return true
+	})
+	for name, g := range guards {
+		uses := 0
+		walkVarIdents(body, func(id *ast.Ident) {
+			if id.Name == name {
+				uses++
+			}
+		})
+		if uses != 1 { // 1 = the definition's own left-hand side
+			continue
+		}
+		def := g.def
+		rewriteStmtLists(body, func(list []ast.Stmt) []ast.Stmt {
+			out := list[:0:0]
+			for _, st := range list {
+				if st != ast.Stmt(def) {
+					out = append(out, st)
+				}
+			}
+			return out
+		})
+	}
+}
+
+// fullyInlined reports whether helper h (an unexported, non-anchored function or method) is seen by the
+// queries ONLY through the copies inlineHelpers made: every mention of its name in the loaded files is the
+// callee of a call that has such a copy behind it, or sits in another helper that is itself fully inlined.
+// The access table then skips h's own declaration — its accesses are already listed where they happen,
+// under the caller's locks — instead of listing them a second time with no lock held.
+func (s *src) fullyInlined(h *ast.FuncDecl) bool {
+	return s.fullyInlinedRec(h, map[*ast.FuncDecl]bool{})
+}
+
+func (s *src) fullyInlinedRec(h *ast.FuncDecl, busy map[*ast.FuncDecl]bool) bool {
+	if h == nil || h.Name == nil || s.helpers[h.Name.Name] != h || busy[h] {
+		return false
+	}
+	busy[h] = true
+	defer delete(busy, h)
+	name := h.Name.Name
+	mentions, covered := 0, 0
+	seen := map[ast.Node]bool{}
+	for _, f := range s.files {
+		for _, d := range f.Decls {
+			fd, _ := d.(*ast.FuncDecl)
+			viaHelper := fd != nil && fd != h && s.helpers[fd.Name.Name] == fd && s.fullyInlinedRec(fd, busy)
+			ast.Inspect(d, func(n ast.Node) bool {
+				if n == nil || seen[n] {
+					return n != nil && !seen[n]
+				}
+				seen[n] = true
+				switch v := n.(type) {
+				case *ast.Ident:
+					if v.Name == name && v != h.Name {
+						mentions++
+					}
+				case *ast.CallExpr:
+					if s.calleeIs(v, name) && (s.inlinedCalls[v] || viaHelper) {
+						covered++
+					}
+				}
+				return true
+			})
+		}
+	}
+	return mentions > 0 && mentions == covered
 }
